@@ -106,6 +106,22 @@ def are_joinable(
         if any_out_edges and block2.size != 0:
             return JoinableResult(False, "block1 has outgoing edges")
 
+        # An empty block2 is normally absorbed, but if block1 ends in a
+        # terminator that does not fall through into block2, block2's own
+        # outgoing edges (e.g. the fallthrough that continues after a
+        # replaced instruction) must not become block1's.
+        if (
+            any_out_edges
+            and any(block2.outgoing_edges)
+            and not any(
+                _is_fallthrough_edge(edge) and edge.target == block2
+                for edge in block1.outgoing_edges
+            )
+        ):
+            return JoinableResult(
+                False, "block1 does not fall through into block2"
+            )
+
         any_in_edges = any(
             edge
             for edge in block2.incoming_edges
